@@ -81,3 +81,33 @@ def c09_units(tier):
 reg("C09", c09_units,
     "bounded symbolic model checking of selectPruneTargets against the statement's set definition, of runPrune (both modes) through the real lock/load/append path over a symbolic store, of the replay loop body for one arbitrary event from a store with tombstones (inductive step: pruned ids stay gone), and of every mutating entry point given a pruned id.",
     ["L1 world stubs (symbolic store) as in C07; crypto/rand modelled as an arbitrary string per draw (shortID stub)"])
+
+
+# ---------------------------------------------------------------- C14 / C15
+HS14 = ["c06.go", "c07.go", "c09.go", "c14.go"]
+STUB = {"loop": 24, "rec": 4, "stubs": "hasCycle=zzHasCycleSpec"}
+
+
+def c14_units(tier):
+    return [
+        Unit("new-task-epic", HS14, "zzC14_NewTaskEpic", STUB, bounds="store of 3 items + 1 pruned id obeying I1-I5; epic argument any id (live epic, task in epic, root task, unknown, pruned, empty); task or epic creation"),
+        Unit("set-epic", HS14, "zzC14_SetEpic", STUB, bounds="same store; set with an epic field (any id) plus any other fields on any id"),
+    ]
+
+
+reg("C14", c14_units,
+    "bounded symbolic model checking of the two entry points that assign an epic (createTask, applySetUpdates/buildSetEvents) from an arbitrary store satisfying I1-I5, post-state read back through the real replay; prune/compact/plan sides of the invariant are covered by C09/C05/C11.",
+    ["L1 world stubs (symbolic store) as in C07"])
+
+
+def c15_units(tier):
+    n = "3" if tier == "quick" else "4"
+    return [
+        Unit("progress-acyclic", HS14, "zzC15_ProgressAcyclic_N4", {"loop": 24}, bounds="N=4 items obeying I1-I5 whose effective waits-for relation has a rank function; isReady/areEpicDepsComplete/isEpicComplete real"),
+        Unit("progress-any", HS14, "zzC15_ProgressAny_N4", {"loop": 24}, bounds="N=4 items obeying only what ergo enforces (I1-I5: cycles checked per kind)"),
+    ]
+
+
+reg("C15", c15_units,
+    "bounded symbolic model checking of the observable formulation (todo work, nothing held => something ready) over every 4-item store ergo's own checks admit; split into stores whose combined waits-for relation is acyclic (must hold) and the rest (the cross-level cycle ergo admits today).",
+    ["N=4 is the smallest universe exhibiting a cross-level cycle (2 tasks + 2 epics)"])
